@@ -17,7 +17,7 @@ From KV Require Import TxnAtomic.
 From KV Require Import Service.
 From KV Require Import Repl.
 From KV Require Import Registry.
-From KV.gen Require Import TxFacts.
+From KV.gen Require Import RegFacts.
 Extraction Language OCaml.
 (* Coq's String module (identifiers of the C07 lock table) must not shadow OCaml's: it is emitted as String0 *)
 Extraction Blacklist String.
@@ -57,5 +57,5 @@ Separate Extraction
   Service.service_step Service.sstep Service.srun Service.sinit Service.code_limits Service.req_size
   Repl.new_replica Repl.process Repl.stream_start Repl.acknowledge_up_to Repl.seg Repl.pick Repl.poll
   Repl.view Repl.primary_view Repl.deserialize Repl.to_proto
-  Registry.init Registry.step Registry.run Registry.lock_state Registry.reg_size Registry.db_get Registry.has_pending TxFacts.registry_begin_timeout_ms
+  Registry.init Registry.step Registry.run Registry.lock_state Registry.reg_size Registry.db_get Registry.has_pending RegFacts.registry_begin_timeout_ms
 .
